@@ -113,6 +113,7 @@ pub struct Runner<'a> {
     pub out: Outcome,
     /// what the caller's output buffer looked like after the last call (C19)
     pub last_outbuf: Vec<u8>,
+    kem_seen: usize,
 }
 
 enum CallRes {
@@ -168,6 +169,7 @@ impl<'a> Runner<'a> {
             log: new_log(),
             out: Outcome::default(),
             last_outbuf: vec![],
+            kem_seen: 0,
         }
     }
 
@@ -182,13 +184,41 @@ impl<'a> Runner<'a> {
         });
     }
 
+    /// Bind the KEM oracle terms to what the endpoints' KEM objects have produced so far (hfs).
+    fn sync_kem(&mut self) {
+        use crate::resolver::KemOp;
+        let l = self.log.lock().unwrap();
+        if l.kem.len() == self.kem_seen {
+            return;
+        }
+        for op in &l.kem[self.kem_seen..] {
+            match op {
+                KemOp::Gen { ep, k, pubkey } => {
+                    self.bind.kem.insert(format!("pub|{ep}|{k}"), pubkey.clone());
+                },
+                KemOp::Encap { ep, k, pubkey, ct, ss } => {
+                    self.bind.kem.insert(format!("encpk|{ep}|{k}"), pubkey.clone());
+                    self.bind.kem.insert(format!("ct|{ep}|{k}"), ct.clone());
+                    self.bind.kem.insert(format!("ss|{ep}|{k}"), ss.clone());
+                },
+                KemOp::Decap { ep, ct, ss } => {
+                    let d = hex::encode(crate::prims::hash(crate::prims::HashAlg::Sha256, &[ct]));
+                    self.bind.kem.insert(format!("dec|{ep}|{d}"), ss.clone());
+                },
+            }
+        }
+        self.kem_seen = l.kem.len();
+    }
+
     fn ev(&mut self, v: &Value) -> Result<Vec<u8>, String> {
+        self.sync_kem();
         let id = self.ar.intern(v)?;
         // the evaluator borrows arena + bindings immutably; memo lives per call-site batch
         let mut e = Evaluator::new(self.inst.ps, &self.bind, &self.ar);
         e.eval(id)
     }
     fn ev_seq(&mut self, v: &Value) -> Result<Vec<u8>, String> {
+        self.sync_kem();
         let id = self.ar.intern(v)?;
         let mut e = Evaluator::new(self.inst.ps, &self.bind, &self.ar);
         e.eval_seq(id)
